@@ -874,3 +874,37 @@ M('C06-reverse-table-extra-del', 'C06', F_LEXER,
   "del _STRING_REVERSE_ESCAPES[b'\"']\n",
   "del _STRING_REVERSE_ESCAPES[b'\"']\ndel _STRING_REVERSE_ESCAPES[b'\\\\']\n",
   expect='R-C06-escapes')
+
+# ---------------------------------------------------------------- C18 ----
+M('C18-revert-like-off-by-one-hi', 'C18', F_GAME,
+  "            section_data[lo - start_a:hi - start_a] = \\\n"
+  "                data[lo - start_addr:hi - start_addr]\n",
+  "            section_data[lo - start_a:hi - start_a + 1] = \\\n"
+  "                data[lo - start_addr:hi - start_addr]\n", expect='R-C18-slices')
+M('C18-source-offset-wrong', 'C18', F_GAME,
+  "                data[lo - start_addr:hi - start_addr]\n",
+  "                data[lo - start_a:hi - start_a]\n", expect='R-C18-slices')
+M('C18-reject-too-late', 'C18', F_GAME,
+  "        if start_addr + len(data) > 0x4300:\n",
+  "        if start_addr + len(data) > 0x4400:\n", expect='R-C18-reject')
+M('C18-reject-off-by-one', 'C18', F_GAME,
+  "        if start_addr + len(data) > 0x4300:\n",
+  "        if start_addr + len(data) >= 0x4300:\n", expect='R-C18-reject')
+M('C18-region-missing', 'C18', F_GAME,
+  "                  (0x3000, 0x3100, self.gff._data),\n", "",
+  expect='R-C18-map')
+M('C18-wrong-array', 'C18', F_GAME,
+  "                  (0x3100, 0x3200, self.music._data),\n",
+  "                  (0x3100, 0x3200, self.gff._data),\n", expect='R-C18-map')
+M('C18-skip-test-inclusive', 'C18', F_GAME,
+  "            if lo >= hi:\n                continue\n",
+  "            if lo > hi:\n                continue\n", kind='neutral',
+  note='empty slice store on an empty intersection changes nothing')
+M('C18-skip-too-eager', 'C18', F_GAME,
+  "            if lo >= hi:\n                continue\n",
+  "            if lo + 1 >= hi:\n                continue\n",
+  expect='R-C18-slices')
+M('C18-n-clip-with-ifexp', 'C18', F_GAME,
+  "            lo = max(start_addr, start_a)\n",
+  "            lo = start_addr if start_addr > start_a else start_a\n",
+  kind='neutral')
